@@ -284,8 +284,17 @@ class Executor:
     def op_mutate_pl(self, op, ev, args, pre):
         steps, opts = world.pipe_value(op["pipe"])
         self.pl_steps[:] = steps
-        self.pl_opts.clear()
-        self.pl_opts.update(opts)
+        # edit the options dictionary IN PLACE at every level: inner
+        # dictionaries that stay are updated, not replaced
+        for k in list(self.pl_opts):
+            if k not in opts:
+                del self.pl_opts[k]
+        for k, v in opts.items():
+            if isinstance(v, dict) and isinstance(self.pl_opts.get(k), dict):
+                self.pl_opts[k].clear()
+                self.pl_opts[k].update(v)
+            else:
+                self.pl_opts[k] = v
         ev["p"] = self.pipe_id(steps, opts)
 
     def op_mutate_pi(self, op, ev, args, pre):
